@@ -42,9 +42,15 @@ JudgeEinsum(ev) ==
                 \* named deviation (D18): outer(a,b) with a Tensor<T,1> operand returns the right elements without the extent-1 axis
                 squeezed == /\ x.form = "outer" /\ (x.sa = <<1>> \/ x.sb = <<1>>)
                             /\ r.fault = 0 /\ r.vals = exp.vals /\ r.shape = (IF x.sb = <<1>> THEN x.sa ELSE x.sb)
+                \* named deviation (D19): the same overloads compute  a * b.toscalar()  as an expression; for a complex element type
+                \* the library evaluates scalar*tensor to zero (the complex-expression defect of C02), so the result is all zeros
+                unitzero == /\ x.form = "outer" /\ (x.sa = <<1>> \/ x.sb = <<1>>) /\ cx
+                            /\ r.fault = 0 /\ r.shape = (IF x.sb = <<1>> THEN x.sa ELSE x.sb)
+                            /\ \A q \in DOMAIN r.vals : r.vals[q] = Zero(cx)
             IN IF ok THEN TRUE
                ELSE IF dc # "" THEN RejectTag(l, ev.case, ev.outs[o].cfg, dc)
                ELSE IF squeezed THEN RejectTag(l, ev.case, ev.outs[o].cfg, "outer_unit_squeezed")
+               ELSE IF unitzero THEN RejectTag(l, ev.case, ev.outs[o].cfg, "outer_unit_complex_zero")
                ELSE Reject(l, ev.case, ev.outs[o].cfg)
 
 \* L2 binding: the classifier values and the vector length the code computed must be those of EinsumDispatch.
